@@ -191,8 +191,10 @@ PROPS = {
         "assumptions": GEO_ASSUME,
         "stages": [
             {"kind": "mc", "module": "MC_Geo", "cfg": {"quick": "MC_Geo.cfg", "thorough": "MC_Geo_thorough.cfg"}, "workers": 6},
-            {"kind": "gen", "module": "Gen_Proj", "cfg": {"quick": "Gen_Proj.cfg", "thorough": "Gen_Proj_thorough.cfg"}, "scenario": "C17", "exhaustive": True},
+            {"kind": "gen", "module": "Gen_Proj", "cfg": {"quick": "Gen_Proj.cfg", "thorough": "Gen_Proj_thorough.cfg"}, "scenario": "C17", "exhaustive": True,
+             "profiles": ["release", "debug"]},
             {"kind": "rec", "scenario": "C17", "count": {"quick": 20000, "thorough": 500000}, "trace_module": "Trace_Geo", "trace_cfg": "Trace_Geo.cfg",
+             "profiles": ["release", "debug"],
              "nontrivial": lambda ev: ev.get("cls") != "uniform"},
         ],
     },
